@@ -137,6 +137,44 @@ def run(ctx, b, broken):
             for pre, suf, name in ctxs:
                 ctx.count("bracket-strings:" + name)
                 must_reject(pre + " ".join(seq) + suf, "its brackets do not balance", n >= 3)
+    # long programs (tens of thousands of tokens, a speculative `( type-name )` attempt at every parenthesis, every token offset
+    # modulo 4 tried): the whole text is seen by the parser - the tree is the model's, and a bracket deleted, duplicated or
+    # swapped ANYWHERE in it (near the end in particular) is still noticed
+    NST = 3000 if ctx.tier == "quick" else 12000
+    for off in range(4):
+        body = " ".join(["(a%d);" % (i % 7) if i % 3 else "b[(i%d)] = (c)(d);" % (i % 5) for i in range(NST)])
+        text = "int pad;" * off + " void f(void){ " + body + " }"
+        sp = text.split()
+        ctx.evaluations += 1
+        ctx.count("long-program")
+        ctx.nontriv(("long", off))
+        io = impl_parse(text)
+        su.corr(text, io, tag="long programs")
+        if not io.startswith("OK"):
+            su.violation(text[:300] + " ...", f"a long valid program ({len(text)} characters) is not accepted: {io[:80]!r}")
+            continue
+        toks = re.findall(r"[A-Za-z_0-9]+|[()\[\]{};=]", text)
+        idx = [i for i, t in enumerate(toks) if t in "()[]{}"]
+        for _ in range(6):
+            i = idx[-1 - ctx.rng.randrange(min(len(idx), 4000))] if ctx.rng.random() < 0.7 else ctx.rng.choice(idx)
+            kind = ctx.rng.randrange(3)
+            if kind == 0:
+                mt = toks[:i] + toks[i + 1:]
+                why = f"bracket token {i} of {len(toks)} ({toks[i]}) was deleted"
+            elif kind == 1:
+                mt = toks[:i] + [toks[i]] + toks[i:]
+                why = f"bracket token {i} of {len(toks)} ({toks[i]}) was duplicated"
+            else:
+                other = ctx.rng.choice([c for c in ("([{" if toks[i] in "([{" else ")]}") if c != toks[i]])
+                mt = toks[:i] + [other] + toks[i + 1:]
+                why = f"bracket token {i} of {len(toks)} ({toks[i]}) was replaced by {other}"
+            ctx.count("mutation:long-program")
+            ctx.evaluations += 1
+            mio = impl_parse(" ".join(mt))
+            if mio.startswith("OK"):
+                su.violation(" ".join(mt[max(0, i - 40):i + 40]), f"a long program is accepted although {why}", {"observed": mio[:200]})
+            elif not mio.startswith("E" + US) and mio != "R":
+                su.violation(" ".join(mt[max(0, i - 40):i + 40]), f"a long program is not rejected with ParseError ({mio[:60]!r}) although {why}")
     ctx.sample({"text": "int f ( int a ) { return a [ 1 ; }", "mutation": "deleted ]"})
     ctx.sample({"text": "int v = 1 ( ] ;", "why": "unbalanced"})
     su.finish()
